@@ -46,6 +46,29 @@ CLAIMED = {
         tech=TECH_V + '; ' + TECH_K),
 }
 
+CLAIMED.update({
+    'C01': dict(
+        cat='proof', ref='DESIGN 4/C01',
+        text='Every function of the request-preamble parser (StateBuilder::into_skip, SkipState/GetValuesState/HeaderState/ParamsState::drive, ParamsStateInner::parse_buffered and parse_stream incl. the try_fill!/to_array!/try_head! macros, State::drive, Parser::parse/move_input/into_request/into_stream_parser) is verified by Verus against specification-level step functions written from the FastCGI specification (header_step, params_step, skip_step, values_step, composed by r_run): BeginRequest framing yields exactly the transmitted id/role/flags; cross-record pair reassembly (parse_buffered, both length encodings, every split point) inserts exactly the pairs of the consumed byte prefix, in order, once (log + decode_pairs(carry + consumed), carry = decode_rest(..)); State::drive takes exactly the steps of r_run; for all payload/padding lengths, cuts and buffer contents.',
+        note='The environment map is abstracted to the ordered log of raw (name, value) pairs handed to it (R8): last-value-wins / case-insensitive lookup rest on std HashMap + C19, make_cgivar (lossy UTF-8 + uppercasing) is external. The whole-stream statement (log == decode_pairs(concatenated Params payloads) for every segmentation and chunking) follows from the consumed-prefix contracts by lemma_prefix (machine-checked, nv lemma unit) but the induction over all call histories is not a machine-checked lemma. Trusted: R-rewrites, wrappers listed in evidence, VarInt::read / from_bytes contracts (proved complete by Kani).',
+        tech=TECH_V),
+    'C06': dict(
+        cat='proof', ref='DESIGN 4/C06',
+        text='Config::aligned_bufsize: result >= 24, >= configured size, multiple of 8 and < size+8 (bit-vector proof) for every size <= usize::MAX-7; Parser::parse: an unfinished parser always offers a non-empty input buffer, StuckOnInput is entered exactly when the buffer is full and the specification run needs more input; maximal consumption: parse_buffered / parse_stream / ParamsState::drive leave payload unread only if carry + unread holds no complete pair.',
+        note='The sufficiency half (pairs <= B-13 never get stuck, for all segmentations) follows from maximal consumption + header/padding bounds but is not a machine-checked lemma yet. For buffer_size > usize::MAX-7 (unallocatable) aligned_bufsize returns usize::MAX, which is not a multiple of 8: outside the property quantifier, stated in DESIGN.',
+        tech=TECH_V),
+    'C11': dict(
+        cat='proof', ref='DESIGN 4/C11',
+        text='Parser-level half: AbortRequest for the request in progress during Params -> exactly one EndRequest(RequestComplete, 0) for that id, request dropped, parser back to the initial state skipping the abort record body (params_step); during streams -> Err(AbortRequest), nothing consumed, header kept (parse_head); abort for any other id is skipped; Error::AbortRequest -> io::ErrorKind::ConnectionAborted, ExitStatus::ABORT == Complete("ABRT") (complete Kani harnesses).',
+        note='The async half (Token::run translating ConnectionAborted into ExitStatus::ABORT, close()/record_boundary() tolerating it, connection reuse) is outside the reach of both verifiers (see C07) and is an unchecked assumption of this claim.',
+        tech=TECH_V + '; ' + TECH_K),
+    'C16': dict(
+        cat='proof', ref='DESIGN 4/C16',
+        text='NVIter::next (instantiated at &[u8], real text) verified by Verus against pair_step for unbounded lengths: a complete pair is returned as two consecutive sub-slices and the iterator advances past it, otherwise None and the suffix is handed back untouched; checked arithmetic never panics. Machine-checked lemmas over the decoder specification: prefix monotonicity, fusedness, consumed-prefix law, count <= len/2, one-pair decoding. VarInt laws by complete Kani harnesses.',
+        note='nv::write, &[u8]/&mut [u8] agreement and size_hint are bounded Kani stand-ins (names <= 3 bytes plus the 127/128 boundary; inputs <= 9 bytes), listed under coverage.bounded and not counted as proved. InvalidInput for lengths > 2^31-1 is covered only through VarInt::try_from (a 2 GiB slice cannot be built).',
+        tech=TECH_V + '; ' + TECH_K),
+})
+
 NA = {
     'C07': 'async connection loop (Token::run / parse_request / close) under all transport schedules: async fn, Pin, Context and generic AsyncRead/AsyncWrite are outside the Verus dialect and Kani diverges on the real async code (probe: no result in 15 min); no per-call contract within reach expresses the property',
     'C08': 'liveness / absence of a wait-for cycle between server task and peer: a whole-history property under a waker-driven executor; contracts on single calls cannot express it',
